@@ -29,14 +29,18 @@ RULE = (
     "constant 5.0, NaN-mixed, increasing, alternating, random tile, seeded "
     "random, realistic [0,0.5]) of 1..600 (thorough 5000) instances x "
     "chunking (cyclic tile of chunk sizes 1..8 with occasional large chunks) "
-    "x seed x manager parameters. Distinct = distinct case hash. "
+    "x seed x manager parameters (theta, s, delta, v, number of classes; "
+    "strategy budget absent/equal/different from the manager's; indices "
+    "handed to update as list or int ndarray). Every chunk is one "
+    "query(+utilities) call followed by one update call with the returned "
+    "indices. Distinct = distinct case hash. "
     "Non-trivial = the replayed guard was false (budget exhausted) at >= 1 "
     "instance whose utility alone qualifies (non-NaN and: utility >= 1.0, "
     "i.e. confidence <= 0 is below every positive threshold; "
     "FixedUncertainty: confidence <= its fixed threshold; RandomBudgetManager"
     "/PeriodicSampling: any non-NaN instance; StreamRandomSampling: drawn "
     "utility >= 1-budget), or the label count came within 2 of the bound at "
-    "some prefix with >= 1 label.")
+    "some prefix with >= 2 labels.")
 ASSUMPTIONS = [
     "bounds exactly as in the property statement: window managers "
     "b*n+n/w+b*w+1, DensityBasedSplitBudgetManager b*n+1, PeriodicSampling "
@@ -55,6 +59,11 @@ ASSUMPTIONS = [
     "theta-adaptation (which utilities qualify) and chunking invariance are "
     "C10; only the count bound and the budget guard are asserted here",
     "infinite utilities are offered to directly driven managers only",
+    "a strategy constructed with both a budget manager and a different "
+    "budget uses the manager as is (documented): the manager's budget is "
+    "the one in the bound",
+    "seeded_random/realistic streams are expanded from an integer seed in "
+    "the case by numpy RandomState (deterministic function of the case)",
 ]
 PROFILE = {
     "quick": dict(examples=2500, shards=16, budget_s=90),
@@ -474,7 +483,7 @@ def run_case(case):
             f"(budget={b!r}, w={w}, chunk of {int(chunk_size_at[i])}, "
             f"position {int(pos_in_chunk[i])} in chunk); worst excess "
             f"{float(np.max(cum - bound)):.6g}"))
-    near_bound = bool(np.any((cum >= 1) & (cum >= bound - 2)))
+    near_bound = bool(np.any((cum >= 2) & (cum >= bound - 2)))
 
     # (2) independent replay of the documented estimate / counters
     g_list = granted.tolist()
